@@ -244,8 +244,32 @@ fn gen_valid_cmds(g: &mut G<'_>, stmts: &mut Vec<(u32, usize)>) -> Vec<Vec<u8>> 
     let mut out = Vec::new();
     // the last execute sent, with its statement id (for sending the very same bytes again)
     let mut last_exec: Option<(u32, Vec<u8>)> = None;
+    let mut last_params: Option<(u32, Vec<Param>)> = None;
     for _ in 0..n {
-        match g.weighted(&[4, 3, 5, 2, 2, 1, 1, 1, 3, if last_exec.is_some() { 3 } else { 0 }]) {
+        match g.weighted(&[4, 3, 5, 2, 2, 1, 1, 1, 3, if last_exec.is_some() { 3 } else { 0 }, if last_params.is_some() { 4 } else { 0 }]) {
+            10 => {
+                // the statement executed last once more, reusing the bound types (no type block):
+                // same types, fresh values and another NULL pattern
+                let (id, prev) = last_params.clone().unwrap();
+                let mut params: Vec<Param> = prev.iter().map(|p| gen_param_of(g, p.coltype, p.unsigned, true)).collect();
+                if params.len() >= 2 && g.coin() {
+                    // ... or exactly the previous NULL pattern moved on by one parameter (as many
+                    // NULLs as before, elsewhere)
+                    let n = params.len();
+                    for i in 0..n {
+                        let was_null = matches!(prev[(i + n - 1) % n].value, PVal::Null);
+                        if was_null {
+                            params[i].value = PVal::Null;
+                        } else if matches!(params[i].value, PVal::Null) {
+                            params[i] = gen_param_of(g, params[i].coltype, params[i].unsigned, false);
+                        }
+                    }
+                }
+                let e = com_execute(id, 0, 1, &params, false);
+                last_exec = Some((id, e.clone()));
+                last_params = Some((id, params));
+                out.push(e);
+            }
             9 => {
                 // the same execute once more, byte for byte - possibly after long data for one of
                 // its parameters, which makes the same bytes mean something else (or nothing valid)
@@ -281,6 +305,7 @@ fn gen_valid_cmds(g: &mut G<'_>, stmts: &mut Vec<(u32, usize)>) -> Vec<Vec<u8>> 
                 }
                 let e = com_execute(id, 0, 1, &params, true);
                 last_exec = Some((id, e.clone()));
+                last_params = Some((id, params.clone()));
                 out.push(e);
             }
             3 => {
